@@ -154,6 +154,8 @@ def specs(r, calls=(1, 2, 3)):  # noqa: F811
             if v[3] == 0:
                 qs.append((f"spec eq {(out.get('reschedulings') or {}).get(k, 0)} {v[0]}",
                            {"what": "concurrent callers: every execution moves the due time exactly once (reschedulings = executions)", "key": k}))
+    from . import c14 as _c14m
+    qs += _c14m.final_due_specs(r["scn"], out)
     stable = {int(k): set(v) for k, v in (out.get("stable_dues") or {}).items()}
     for rec in out["records"]:
         if rec["op"] != "due":
